@@ -762,6 +762,9 @@ class Interp:
             if fm:
                 if "classmethod" in fm.decorators:
                     return self.call_function(fm.mod, fm.node, [obj] + list(args), kw, qn=fm.qn)
+                if "staticmethod" not in fm.decorators and args and isinstance(args[0], GA) and obj.name in self.prog.mro(args[0].cls):
+                    # Class.method(instance, ...) is instance.method(...): the same dispatch (summaries, hooks, the instance's own class)
+                    return self.method(args[0], name, list(args[1:]), kw)
                 return self.call_function(fm.mod, fm.node, list(args), kw, qn=fm.qn)
             raise Undecided(f"class attribute call {obj.name}.{name}")
         if isinstance(obj, Row) and obj._d.get("__super__"):
